@@ -1,6 +1,7 @@
 """Front end: parse /repo/bisturi, class / function tables, MRO, method-value
 strategy table, template ASTs of the generated code, call resolution."""
 import ast
+import copy
 import os
 import re
 import textwrap
@@ -425,6 +426,113 @@ class Repo:
                             out.add(n.args[1].value)
             self._stored_names = out
         return self._stored_names
+
+    def ctor_consts(self, ci):
+        """``self.<attr>`` -> expression, for attributes that only the constructor assigns, as a
+        function of other such attributes: a constructor parameter kept unchanged in an attribute
+        that nothing else assigns is that attribute; what the constructor computes on its
+        different paths becomes one conditional expression over its path conditions"""
+        key = ('ctor', ci.qual)
+        if key in self._mro_cache:
+            return self._mro_cache[key]
+        out = {}
+        self._mro_cache[key] = out
+        init = ci.methods.get('__init__')
+        if init is None:
+            return out
+        elsewhere = set()
+        for c in set(self.mro(ci)) | set(self.subclasses(ci.name)):
+            for name, fi in c.methods.items():
+                if fi is init:
+                    continue
+                for n in ast.walk(fi.node):
+                    if isinstance(n, ast.Attribute) and isinstance(n.ctx, (ast.Store, ast.Del)) and isinstance(n.value, ast.Name) and n.value.id == 'self':
+                        elsewhere.add(n.attr)
+                    elif isinstance(n, ast.Call) and isinstance(n.func, ast.Name) and n.func.id == 'setattr' and n.args and isinstance(n.args[0], ast.Name) and n.args[0].id == 'self':
+                        elsewhere.add('*')
+        if '*' in elsewhere:
+            return out
+        # stores on other objects named like the attribute (f.mask = ... in a sibling's _compile)
+        other = {n.attr for info in self.modules.values() for n in ast.walk(info['tree'])
+                 if isinstance(n, ast.Attribute) and isinstance(n.ctx, (ast.Store, ast.Del)) and not (isinstance(n.value, ast.Name) and n.value.id == 'self')}
+        try:
+            w = Walker(None, max_paths=256)
+            w.read_heap = True
+            paths = [p for p in w.paths(init.node, cls=ci) if not p.raises()]
+        except Undecided:
+            return out
+        if not paths or len(paths) > 64:
+            return out
+        params = {a.arg for a in init.node.args.posonlyargs + init.node.args.args + init.node.args.kwonlyargs} - {'self'}
+        finals = []
+        for p in paths:
+            last = {}
+            for e in p.effects:
+                if e.kind == 'store_attr' and isinstance(e.obj, ast.Name) and e.obj.id == 'self':
+                    last[e.name] = e.value
+            finals.append(last)
+        # parameters kept unchanged
+        kept = {}
+        for prm in params:
+            attrs = [a for a in finals[0] if all(isinstance(f.get(a), ast.Name) and f[a].id == prm for f in finals)]
+            attrs = [a for a in attrs if a not in elsewhere and a not in other]
+            if attrs:
+                kept[prm] = attrs[0]
+
+        class _S(ast.NodeTransformer):
+            bad = False
+
+            def visit_Name(self_, n):
+                if n.id in kept:
+                    return ast.Attribute(value=ast.Name(id='self', ctx=ast.Load()), attr=kept[n.id], ctx=ast.Load())
+                if n.id in params or '@' in n.id or n.id.startswith('<'):
+                    self_.bad = True
+                return n
+
+        def subst(e):
+            t = _S()
+            r = t.visit(copy.deepcopy(e))
+            return None if t.bad else r
+        attrs = set()
+        for f in finals:
+            attrs |= set(f)
+        class _Fail(Exception):
+            pass
+
+        def tree(idx, depth, a):
+            """decision tree over the path conditions, collapsed where the attribute does not depend on them"""
+            vals = {canon(finals[i][a]) for i in idx}
+            if len(vals) == 1:
+                v = subst(finals[idx[0]][a])
+                if v is None:
+                    raise _Fail()
+                return v
+            gs = [paths[i].guards for i in idx]
+            if any(len(g) <= depth for g in gs):
+                raise _Fail()
+            g0 = canon(gs[0][depth][0])
+            if any(canon(g[depth][0]) != g0 for g in gs):
+                raise _Fail()
+            yes = [i for i in idx if paths[i].guards[depth][1]]
+            no = [i for i in idx if not paths[i].guards[depth][1]]
+            if not yes or not no:
+                return tree(idx, depth + 1, a)
+            ty, tn = tree(yes, depth + 1, a), tree(no, depth + 1, a)
+            if canon(ty) == canon(tn):
+                return ty
+            test = subst(paths[idx[0]].guards[depth][0])
+            if test is None:
+                raise _Fail()
+            return ast.IfExp(test=test, body=ty, orelse=tn)
+
+        for a in sorted(attrs):
+            if a in elsewhere or a in other or a in kept.values() or not all(a in f for f in finals):
+                continue
+            try:
+                out['self.%s' % a] = ast.fix_missing_locations(tree(list(range(len(paths))), 0, a))
+            except _Fail:
+                continue
+        return out
 
     def private_sentinels(self):
         """module-private names bound once to a fresh ``object()``: markers for "no value given".
